@@ -1,14 +1,22 @@
 #!/bin/bash
-# usage: seedconfirm.sh <worktree> <changedir> <demo test filter>
-# Confirms: suite passes with patch; demo fails with patch; demo passes without patch.
-WT=$1; CH=$2; FILTER=$3
-cd $WT || exit 9
-git checkout -q -- . ; git clean -fdq src tests
-git apply $CH/patch.diff || { echo "PATCH DOES NOT APPLY"; exit 9; }
-echo "== suite with patch"; cargo test --workspace --offline -j 8 2>&1 | grep -E "^test result|FAILED|failed" | head -20
-git apply $CH/demo.diff || { echo "DEMO DOES NOT APPLY on buggy tree"; }
-echo "== demo with patch (expect FAIL)"; cargo test --workspace --offline -j 8 $FILTER 2>&1 | grep -E "^test .*(ok|FAILED)|^test result" | grep -v "0 passed; 0 failed" | head
-git checkout -q -- . ; git clean -fdq src tests
-git apply $CH/demo.diff || { echo "DEMO DOES NOT APPLY on clean tree"; }
-echo "== demo without patch (expect ok)"; cargo test --workspace --offline -j 8 $FILTER 2>&1 | grep -E "^test .*(ok|FAILED)|^test result" | grep -v "0 passed; 0 failed" | head
-git checkout -q -- . ; git clean -fdq src tests
+# usage: lib/seedconfirm.sh <seed-id> <property> "<demo cmd>"   -- (re)confirms an already stored seeded/<id>/{patch,demo}.diff in a scratch
+# worktree of /repo (removed afterwards) and writes meta.json:confirmed. Used for deliveries whose import was interrupted.
+S=$1; P=$2; CMD=$3; D=/verif/seeded/$S; WT=/tmp/wt-confirm-$S
+git -C /repo worktree add -q --detach $WT HEAD || exit 9
+cd $WT
+git apply $D/patch.diff || { echo "PATCH DOES NOT APPLY"; git -C /repo worktree remove --force $WT; exit 8; }
+suite=$(CARGO_TARGET_DIR=$WT/target cargo test --workspace --no-fail-fast --offline -j 8 2>&1 | grep -E "^test result" | tr '\n' ';')
+git apply $D/demo.diff
+(eval "$CMD") > /tmp/confirm-$S-with.log 2>&1; with_rc=$?
+git checkout -q -- . ; git apply $D/demo.diff 2>/dev/null
+(eval "$CMD") > /tmp/confirm-$S-without.log 2>&1; without_rc=$?
+python3 - <<PY
+import json,os
+p='$D/meta.json'
+m=json.load(open(p)) if os.path.exists(p) else {'property':'$P'}
+m['demo_cmd_run']='''$CMD'''
+m['confirmed']={'suite_with_change':'''$suite''','demo_with_change_exit':$with_rc,'demo_without_change_exit':$without_rc}
+json.dump(m,open(p,'w'),indent=1)
+PY
+echo "$S suite=[$suite] demo_with=$with_rc demo_without=$without_rc"
+cd /; git -C /repo worktree remove --force $WT
